@@ -27,6 +27,7 @@ from sa.pyfront import Program
 from sa.symex import Interp
 
 RULES = {
+    "R-C02-m": "index-cube fill closures write every region of the presented cell unconditionally (no data-dependent skip): a skipped cell's rows stay in the margin and marginal differencing charges them to the common cell",
     "R-C02-j": "the index-cube fill closures come in a traced and an untraced variant (timing diagnostics): both store the same cell values",
     "R-C02-l": "the index methods a cube reads (slices1d, sliced, items, get, common_rowids, abscissae, size) keep nothing on the index between calls (frame analysis shared with C17)",
     "R-C02-k": "per configuration, a region that receives weight values is a float region and one that receives fact values is float or has the summed array's dtype (an integer region truncates on the store)",
@@ -271,6 +272,11 @@ def main(tier):
     for rule, status, where, cons, detail, wit in CK.items:
         rep.add(rule, where, cons, status, detail, True, wit)
     rep.floor("R-C02-k", 10, nk)
+    CE = AT.Collector()
+    ne = AT.rule_every_cell_written(prog, CE, "R-C02-m")
+    for rule, status, where, cons, detail, wit in CE.items:
+        rep.add(rule, where, cons, status, detail, True, wit)
+    rep.floor("R-C02-m", 20, ne)
     rule_g(prog, rep)
     import c16
     sub16 = core.Report("C16", level="other", rules=c16.RULES, tier=tier)
